@@ -222,3 +222,44 @@ func vC09EndToEnd(ops []int) {
 
 func VerifC09_EndToEndQuick()    { vC09EndToEnd([]int{1, 3}) }
 func VerifC09_EndToEndThorough() { vC09EndToEnd([]int{0, 1, 2, 3, 4}) }
+
+// ---- flow control: N callers issue one call each, concurrently, on one client
+// session connected to a real server over an unbuffered in-memory pipe.  Every
+// caller must obtain its own result and all of them must complete (a cycle
+// client handle -> server reader -> serve loop -> server writer -> client
+// reader -> client handle would show up as a deadlock).
+type vFCSession struct{ Session }
+
+func (vFCSession) Clunk(ctx context.Context, fid Fid) error {
+	return MessageRerror{Ename: string([]byte{byte('a' + fid)})}
+}
+func (vFCSession) Version() (int, string) { return DefaultMSize, DefaultVersion }
+func (vFCSession) Stop(err error) error   { return err }
+
+func vC09FlowControl(n int) {
+	ca, cb := newVPipe()
+	ctx, cancel := context.WithCancel(vBG)
+	defer cancel()
+	go func() { ServeConn(ctx, cb, SSession(vFCSession{})) }()
+	cs, err := CSession(ctx, ca)
+	vAssert(err == nil, "C09: the handshake succeeds")
+	if err != nil {
+		return
+	}
+	done := make(chan int, n)
+	for i := 0; i < n; i++ {
+		go func(i int) {
+			err := cs.Clunk(vBG, Fid(i))
+			re, ok := err.(MessageRerror)
+			vAssert(ok && re.Ename == string([]byte{byte('a' + i)}), "C09: each concurrent caller obtains its own result")
+			done <- i
+		}(i)
+	}
+	for i := 0; i < n; i++ {
+		<-done
+	}
+	vReach("c09.flow")
+}
+
+func VerifC09_FlowControl5() { vC09FlowControl(5) }
+func VerifC09_FlowControl6() { vC09FlowControl(6) }
